@@ -13,9 +13,10 @@ case "$1" in
       cat "$VERIF_ROOT/.build/mccheck.err" >&2
       go build -tags nodump -o "$VERIF_ROOT/.build/mccheck${VERIF_BIN_SUFFIX:-}" ./cmd/mccheck
     fi ;;
-  mccheck.prune2)
-    ov=$(VERIF_PRUNE2=1 go run ./cmd/mkoverlay plain "$VERIF_ROOT/.build/ov-prune2") || exit 2
-    go build -overlay "$ov" -o "$VERIF_ROOT/.build/mccheck${VERIF_BIN_SUFFIX:-}.prune2" ./cmd/mccheck ;;
+  mccheck.small)
+    # the same binary with the size thresholds BatchSize (256) and maxPruneNodes (1000) set to 2 through the overlay
+    ov=$(VERIF_SMALL=1 go run ./cmd/mkoverlay plain "$VERIF_ROOT/.build/ov-small") || exit 2
+    go build -overlay "$ov" -o "$VERIF_ROOT/.build/mccheck${VERIF_BIN_SUFFIX:-}.small" ./cmd/mccheck ;;
   mcsched)
     ov=$(go run ./cmd/mkoverlay sched "$VERIF_ROOT/.build/ov-sched") || exit 2
     if ! go build -modfile=go.sched.mod -overlay "$ov" -o "$VERIF_ROOT/.build/mcsched${VERIF_BIN_SUFFIX:-}" ./cmd/mcsched 2>"$VERIF_ROOT/.build/mcsched.err"; then
